@@ -13,6 +13,7 @@ SUBJ = {
  "D19": "fix: rollback_to_block skips the history",
  "D20": "fix: a reorg removes the pending matched blocks",
  "D1": "fix: SendBlock checks the body",
+ "D10": "fix: a rejected blocks/transactions proof",
  "D8": "fix: the child fast path checks the chain root",
  "D24": "fix: do not prepend overlapping old headers",
 }
